@@ -175,6 +175,9 @@ func firstLines(s string, n int) string {
 	return strings.Join(ls, "\n")
 }
 
+// noRetry: runs that solve obligations not expected to discharge (baseline, -all)
+var noRetry bool
+
 func solveAll(obls []*obligation, outDir string, timeoutS int, all bool) {
 	os.MkdirAll(outDir, 0o755)
 	var wg sync.WaitGroup
@@ -186,6 +189,36 @@ func solveAll(obls []*obligation, outDir string, timeoutS int, all bool) {
 			defer wg.Done()
 			defer func() { <-sem }()
 			solve(o, outDir, timeoutS, all)
+		}(o)
+	}
+	wg.Wait()
+	// Second chance for obligations that ran out of time while the machine was busy with
+	// the bulk of the queries: solved again, few at a time, with twice the time.  Only a
+	// result that is still undecided then is reported.
+	var again []*obligation
+	for _, o := range obls {
+		if (o.status == "timeout" || o.status == "unknown") && o.expect != "sat" && !o.quickOnly && o.solver != "vc-too-large" {
+			again = append(again, o)
+		}
+	}
+	if len(again) == 0 || len(again) > 60 || noRetry {
+		return
+	}
+	sem2 := make(chan struct{}, 4)
+	for _, o := range again {
+		wg.Add(1)
+		sem2 <- struct{}{}
+		go func(o *obligation) {
+			defer wg.Done()
+			defer func() { <-sem2 }()
+			first, firstMs := o.status, o.ms
+			o.model = ""
+			solve(o, outDir, 2*timeoutS, all)
+			o.retried = true
+			if o.status == "timeout" || o.status == "unknown" {
+				o.ms += firstMs
+			}
+			_ = first
 		}(o)
 	}
 	wg.Wait()
